@@ -64,13 +64,15 @@ var c19Accessors = []c19Accessor{
 	{c19Bool, "hierarchical-bool", "reduced-memory-usage"},
 }
 
-// c19Levels are the documented level names used (docs/configuration.md "Logging", and the examples).
+// c19Levels are the documented level names (docs/configuration.md "Logging" lists Fatal, Error, Warning, Information,
+// Debug, Trace, None; the examples use the short forms), in either case.
 var c19Levels = []struct {
 	name  string
 	level zerolog.Level
 }{
-	{"info", zerolog.InfoLevel}, {"error", zerolog.ErrorLevel}, {"debug", zerolog.DebugLevel}, {"warn", zerolog.WarnLevel},
-	{"trace", zerolog.TraceLevel}, {"fatal", zerolog.FatalLevel}, {"none", zerolog.Disabled},
+	{"info", zerolog.InfoLevel}, {"warning", zerolog.WarnLevel}, {"debug", zerolog.DebugLevel}, {"warn", zerolog.WarnLevel},
+	{"trace", zerolog.TraceLevel}, {"Information", zerolog.InfoLevel}, {"none", zerolog.Disabled}, {"error", zerolog.ErrorLevel},
+	{"Fatal", zerolog.FatalLevel}, {"Warning", zerolog.WarnLevel},
 }
 
 // c19Val is the abstract value held by node number n (position in the shape's node list), variant v.
